@@ -57,8 +57,23 @@ func anyStr(v any) string {
 	return fmt.Sprintf("%v", v)
 }
 
+func storageSnap(st storage.StoreRetriever) string {
+	switch b := st.(type) {
+	case nil:
+		return "<nil>"
+	case *storage.FileSystem:
+		if b == nil {
+			return "<nil FileSystem>"
+		}
+		return "filesystem:path=" + b.Options.Path
+	default:
+		return fmt.Sprintf("%T", st)
+	}
+}
+
 func snapWriter(w *writer.Writer, keys []string) snap {
 	s := snap{}
+	s["Storage"] = storageSnap(w.Storage)
 	o := w.Options
 	if o == nil {
 		s["options"] = "<nil>"
@@ -88,6 +103,7 @@ func snapWriter(w *writer.Writer, keys []string) snap {
 
 func snapReader(r *reader.Reader, keys []string) snap {
 	s := snap{}
+	s["Storage"] = storageSnap(r.Storage)
 	o := r.Options
 	if o == nil {
 		s["options"] = "<nil>"
@@ -216,7 +232,7 @@ func genC18(verifSeed int64, tier string, idx int) *core.Scenario {
 				ops = append(ops, Op{K: "WWriteOpt", D: r.Intn(nw), F: c18RealFormats[r.Intn(3)], I: 1 + r.Intn(7)})
 			case nw+nr > 0 && r.Intn(3) == 0:
 				// configuring a live instance in place through its exported Options
-				ops = append(ops, Op{K: "Config", D: r.Intn(nw + nr), I: call, A: []string{"format", "render", "store", "fmtopts", "retrieve"}[r.Intn(5)]})
+				ops = append(ops, Op{K: "Config", D: r.Intn(nw + nr), I: call, A: []string{"format", "render", "store", "fmtopts", "retrieve", "storagepath"}[r.Intn(6)]})
 			case nw+nr > 0 && r.Intn(4) == 0:
 				ops = append(ops, Op{K: "StoreRetrieve", D: r.Intn(nw + nr), I: call})
 			case nr > 0 && r.Intn(2) == 0:
@@ -643,6 +659,20 @@ func (env *c18env) mkOp(rec *opRec) func() string {
 			}
 			// the change goes through the instance's own exported configuration, in place
 			switch {
+			case op.A == "storagepath":
+				// the default backend of an instance is its own: pointing it somewhere is configuring this instance
+				var st storage.StoreRetriever
+				if in.kind == "W" {
+					st = in.w.Storage
+				} else {
+					st = in.r.Storage
+				}
+				fsb, ok := st.(*storage.FileSystem)
+				if !ok || fsb == nil {
+					return "not-applicable"
+				}
+				fsb.Options.Path = fmt.Sprintf("/cfg-dir-%d", op.I)
+				in.model["Storage"] = "filesystem:path=" + fsb.Options.Path
 			case in.kind == "W" && op.A == "format":
 				in.w.Options.Format = formats.Format(fmt.Sprintf("application/x-verif-cfg%d+json;version=1", op.I))
 				in.model["Format"] = string(in.w.Options.Format)
